@@ -190,6 +190,23 @@ def allowed_unknown_cases(gen):
             for a in seq:
                 root.add_child(Node(a) if a == name else gen.minimal_tree(a))
             out.append((f"{element}/{name}", root))
+            # the same case with something below the unknown child: a known element that is invalid on its own, an unknown one, text
+            full = Node(element)
+            full.content = emlkit.canonical_content(rname)
+            for k, v in emlkit.valid_attributes(rname).items():
+                full.add_attribute(k, v)
+            for a in seq:
+                if a == name:
+                    u = Node(a, content="text of the unknown element")
+                    below = Node("creator")
+                    below.add_child(Node("verifUnknown"))
+                    below.add_child(Node("surName"))
+                    u.add_child(below)
+                    u.add_child(Node("title"))
+                    full.add_child(u)
+                else:
+                    full.add_child(gen.minimal_tree(a))
+            out.append((f"{element}/{name} with a subtree", full))
     return out
 
 
